@@ -156,7 +156,11 @@ func (vc *VC) wfTerm(t types.Type, s string, m Mem, depth int) string {
 		c := app("select", vc.get(m, card), s)
 		return and(app("<=", "0", s), app("<", s, brk), app("bvult", c, "#x0001000000000000"))
 	case *types.Slice:
-		return and(
+		extra := "true"
+		if k := typeKey(types.Unalias(u.Elem())); strings.HasPrefix(k, "go/ast.") || strings.HasPrefix(k, "*go/ast.") {
+			extra = app("bvult", app("slen", s), "#x0000000100000000") // a source file has fewer than 2^32 nodes
+		}
+		return and(extra,
 			app("<=", "0", app("sarr", s)), app("<", app("sarr", s), brk),
 			app("bvule", app("slen", s), app("scap", s)),
 			app("bvult", app("scap", s), "#x0001000000000000"),
@@ -482,6 +486,9 @@ func (vc *VC) storeLoc(m Mem, l *Loc, nv string) {
 
 func (fr *frame) nilCheck(p Val, site string) {
 	if p.L != nil {
+		return
+	}
+	if fr.vc.P.noNilCheckPkgs[fr.vc.P.pkgPathOf(fr.fn)] {
 		return
 	}
 	if strings.HasPrefix(p.S, "|&") || strings.Contains(p.S, "!ref") {
